@@ -216,7 +216,12 @@ DoRet(s, e) ==
                 a == Vif(s0, hit /\ (e.ok # 1 \/ e.v # li.v), "C01", "returned_differs_from_read_under_lock")
                 b == Vif(a, ~hit /\ own /\ e.ok = 1 /\ e.v # li.v, "C13", "leader_returns_other_than_loaded")
                 d == Vif(b, ~hit /\ ~own /\ e.ok = 1 /\ e.v \notin Get(s.pl, e.p, {}), "C13", "follower_result_not_from_overlapping_load")
-                f == Vif(d, c.ac /\ e.n # 2, "C10", "loading_get_after_close_not_cache_closed_error")
+                f0 == Vif(d, c.ac /\ e.n # 2, "C10", "loading_get_after_close_not_cache_closed_error")
+                \* C03: a loading Get that did not load (and did not hit under the read lock) hands out the value of the
+                \* entry the key still has in the map although that entry's deadline has passed
+                cur == s.mp[c.k]
+                oc == En(s, cur)
+                f == Vif(f0, ~hit /\ ~own /\ e.ok = 1 /\ cur # 0 /\ oc.v = e.v /\ oc.dl # 0 /\ oc.dl <= c.t, "C03", "loading_get_served_expired_entry_without_loading")
                 mine == Get(s.lmine, e.p, <<0, 0>>)
             IN [f EXCEPT !.lp = [k \in KeyDom |-> IF s.lp[k] = e.p THEN "none" ELSE s.lp[k]],
                          !.lcur = [s.lcur EXCEPT ![mine[1]] = @ \ {mine[2]}], !.lmine = Put(s.lmine, e.p, <<0, 0>>),
